@@ -331,13 +331,16 @@ def classify(res, text, registry):
                 if s.get('label') and 'failed' in s['label']:
                     break
         fn = fn_at(line)
+        ckind, explicit, ctext = None, False, ''
         if oid and oid in by_oid:
             tags = list(by_oid[oid].tags)
             kind = 'clause'
+            ckind, explicit = by_oid[oid].kind, getattr(by_oid[oid], 'explicit', False)
+            ctext = by_oid[oid].text
         else:
             kind = 'safety' if any(m in msg for m in SAFETY_MSGS) else 'other'
             tags = None
-        failures.append({'msg': msg, 'line': line, 'fn': fn, 'oid': oid, 'tags': tags, 'kind': kind,
+        failures.append({'msg': msg, 'line': line, 'fn': fn, 'oid': oid, 'tags': tags, 'kind': kind, 'ckind': ckind, 'explicit': explicit, 'ctext': ctext,
                          'pragma': pragma_at(line), 'rendered': rendered[:4000]})
     return failures, tool
 
